@@ -334,3 +334,13 @@ def load_corpus(name):
                 except Exception:
                     pass
     return cases
+
+
+def err_summary(err):
+    """the most telling line of a crashed harness's stderr"""
+    lines = [l.strip() for l in err.split("\n") if l.strip()]
+    for key in ("ERROR: AddressSanitizer", "ERROR: ThreadSanitizer", "ERROR: LeakSanitizer", "runtime error", "Assertion", "terminate called", "what():"):
+        for l in lines:
+            if key in l:
+                return l[:300]
+    return lines[-1][:300] if lines else "(no stderr)"
